@@ -19,6 +19,13 @@ Pythagorean identity is a hypothesis where it is used).  `tmax` is `numeric_limi
 are part of the model and the theorems say exactly when they fire.  The vocabulary (`dot`, `cross`, `lineAt`,
 `OnLine`, `signedDist`, `OnPlane`, `OnSphere`, `InBall`, `InBox`, `InTriangle`, `baryPoint`, `dist2`) is in
 `Spec/GeoSpec.lean`.  Rounding is not covered by these theorems (DESIGN.md §3); it is measured by the check.
+
+Structure: the branching functions get a *cases* theorem first (`closestPoints_cases`, `Plane3_mulM44_cases`, `tri_spec`: what the
+extracted tree computes, by named quantities and guards), the geometric statements are then proved from those by
+vector algebra (`Lemmas/C15Lemmas.lean`).  Bridging steps use `ring` / `ring_nf` / `linear_combination` (robust against
+reordered sums and products, hoisted temporaries, `a/b` spellings); only `tri_spec` matches the guard expressions of the
+50-path triangle tree syntactically.  `Line3_distanceToLine` is the full-strength statement of a function the current
+tree gets wrong (see its doc comment); it is expected to be reported by the check until the code is repaired.
 -/
 set_option linter.unusedSectionVars false
 set_option linter.unusedSimpArgs false
@@ -661,7 +668,12 @@ theorem Plane3_mulM44_sides (tmin : α) (sqrt : α → α) (hlen : LenSpec (Gen.
   rw [h p]
   have hpos : 0 < κ * det3 m := mul_pos hκ hdet
   constructor
-  · exact ⟨fun h0 => (pos_iff_pos_of_mul_pos (by linarith : 0 < κ * det3 m * signedDist pl p)).mp hpos |> fun x => x, fun h0 => mul_pos hpos h0⟩
+  · constructor
+    · intro h0
+      by_contra hc
+      have := mul_nonpos_of_nonneg_of_nonpos (le_of_lt hpos) (not_lt.mp hc)
+      linarith
+    · intro h0; exact mul_pos hpos h0
   · constructor
     · intro h0
       by_contra hc
